@@ -407,6 +407,39 @@ def run(repo: Repo, chk: Check) -> None:
                         f'reports 0, and sets / map keys of `option {prim}` lose one of the two')
     chk.minimum('comparable classes x absent operands', nabs, 14)
 
+    # ---- 6 equality of union values: same side and equal payload, whether the placeholder of the empty side is the shared module object or a
+    #        copy of it (DUP deep-copies values, so both occur on real stacks)
+    chk.set_clause('C03.6')
+    ORQ, UDQ = f'{T}.sum.OrType', f'{T}.base.undefined'
+    oeq = repo.find_method(ORQ, '__eq__')
+    if oeq is None:
+        raise AnalysisError('C03: OrType has no __eq__')
+
+    class _Inl(Hooks):
+        def inline(self, it, fi):
+            return True
+
+    neq = 0
+    for copied in (False, True):
+        for (sa_, pa), (sb_, pb) in itertools.product([(0, 5), (1, 5), (0, 6)], repeat=2):
+            def go(i, sa_=sa_, pa=pa, sb_=sb_, pb=pb, copied=copied):
+                def ph():
+                    return Obj(UDQ, {}) if copied else i.global_name('Undefined', repo.module(f'{T}.base'))
+                mk = lambda side, payload: Obj(ORQ, {'items': (payload, ph()) if side == 0 else (ph(), payload)})
+                return i.call_function(FuncRef(oeq, mk(sa_, pa), True), [mk(sb_, pb)], {}, None, force_inline=True)
+            res6 = Interp(repo, _Inl(), max_depth=6).run_paths(go)
+            want = sa_ == sb_ and pa == pb
+            got = [p.value if p.outcome == 'return' else p.outcome for p in res6]
+            if not got or not all(isinstance(g, bool) for g in got):
+                raise AnalysisError(f'C03: OrType.__eq__ does not reduce to a constant on concrete operands: {[vrepr(g) for g in got]}')
+            neq += 1
+            name = lambda side, payload: f'{"Left" if side == 0 else "Right"} {payload}'
+            chk.ob('R-ORD', oeq.qualname, got == [want], f'{name(sa_, pa)} == {name(sb_, pb)} is {want}' + (' (placeholders copied)' if copied else ''), oeq.loc,
+                   {'got': got, 'placeholder': 'a copy (as after DUP)' if copied else 'the shared Undefined'},
+                   what=f'OrType.__eq__ answers {got} for {name(sa_, pa)} == {name(sb_, pb)}' + (' when the empty side holds a copy of the placeholder (values are deep-copied by DUP)' if copied else '') +
+                        f'; the order demands {want}: COMPARE, set membership, map keys and JOIN_TICKETS on union contents go wrong')
+    chk.minimum('union equality cases', neq, 18)
+
 
 class AddrVal:
     """Abstract base58 address string: kind + optional %entrypoint."""
